@@ -87,10 +87,13 @@ def coverage_structure():
     s.secs["s-17"] = (Fr("10.300000000000001"), Fr("171.00000000000003"), Fr("15.920000000000002"), Fr("34.200000000000003"), Fr("5.7900000000000009"))
     # values that are exactly zero are values too (a round bar given without its weak-axis data, a weightless material)
     s.secs["z 0"] = (Fr("3.14"), Fr("0.785"), Fr(0), Fr("1.57"), Fr(0))
+    # materials and sections are separate name spaces: the same name in both
+    s.mats["S275"] = (Fr("0.00000785"), Fr("21000000"), Fr("8100000"), Fr("0.3"), Fr("27500"), Fr("43000"))
+    s.secs["S275"] = (Fr("28.5"), Fr("1943"), Fr("142"), Fr("194"), Fr("28.5"))
     s.mats["m-0"] = (Fr(0), Fr("21000000"), Fr(0), Fr(0), Fr("27500"), Fr(0))
     for i in range(8):
         s.bars.append({"id": "k%d" % i, "n1": "c%d" % i, "l1": combos[i], "n2": "c%d" % (i + 1), "l2": combos[(i + 3) % 8],
-                       "mat": "m-0" if i == 5 else "m 17", "sec": "z 0" if i in (2, 5) else "s-17"})
+                       "mat": "m-0" if i == 5 else ("S275" if i == 6 else "m 17"), "sec": "z 0" if i in (2, 5) else ("S275" if i in (4, 6) else "s-17")})
     s.loads = [{"kind": "c", "term": "fy", "local": True, "bar": "k0", "t": Fr("0.33333333333333331"), "v": Fr("-100.00000000000001")},
                {"kind": "d", "term": "fx", "local": False, "bar": "k3", "t0": Fr("0.10000000000000001"), "v0": Fr("-0.30000000000000004"),
                 "t1": Fr("0.90000000000000002"), "v1": Fr("12345.678901234568")},
@@ -185,6 +188,13 @@ def run(ctx):
         if i % 3 == 1:
             # coordinates and values that need more than six decimals / a wide exponent range
             s.nodes = {k: (x + Fr(rng.choice(["0.0000001234", "0.00000000077", "1e-12"])), y - Fr("0.123456789"), c) for k, (x, y, c) in s.nodes.items()}
+        if i % 3 == 2 and len(s.bars) > 1:
+            # the loads of a bar need not stand on consecutive lines (files that list loads by kind): two more loads per bar,
+            # then the whole list interleaved
+            for b in s.bars[:3]:
+                s.loads.append({"kind": "d", "term": "fy", "local": True, "bar": b["id"], "t0": Fr(0), "v0": Fr(-11), "t1": Fr(1), "v1": Fr(-11)})
+                s.loads.append({"kind": "d", "term": "fx", "local": True, "bar": b["id"], "t0": Fr(0), "v0": Fr(4), "t1": Fr(1), "v1": Fr(7)})
+            s.loads = s.loads[0::2] + s.loads[1::2]
         if not s.loads:
             s.loads = G.gen_loads_for_bar(rng, s.bars[0]["id"], nmax=3) or [{"kind": "c", "term": "fy", "local": True, "bar": s.bars[0]["id"], "t": Fr("0.5"), "v": Fr(-10)}]
         fixed_orders = [None, ("nodes", "materials", "sections", "bars", "loads"), ("bars", "loads", "sections", "materials", "nodes"),
